@@ -7,6 +7,7 @@ package main
 // not a declared value for every input: the range of the wire / file field is wider than the table.
 
 import (
+	"fmt"
 	"go/types"
 	"sort"
 
@@ -142,4 +143,38 @@ func runEnumDecoders(c *Ctx, fns []*ssa.Function, rule string) {
 			c.Proved(rule, fname, cons, p.pos(f.Pos()), "every returned value is a declared constant, an existing value of the type, or another decoder's answer")
 		}
 	}
+}
+
+// NUM: numbers in CSV cells are decimal. Every strconv.ParseInt / ParseUint reached from the static parser is called
+// with the constant base 10 (base 0 reads a leading zero as octal and 0x as hexadecimal: "0600" becomes 384, "08"
+// is rejected), and every ParseFloat with bit size 64.
+func runNumericDecoders(c *Ctx, fns []*ssa.Function, rule string) {
+	p := c.P
+	n := 0
+	sort.Slice(fns, func(i, j int) bool { return fns[i].Pos() < fns[j].Pos() })
+	for _, f := range fns {
+		k := 0
+		for _, b := range f.Blocks {
+			for _, in := range b.Instrs {
+				call, ok := in.(*ssa.Call)
+				if !ok {
+					continue
+				}
+				name := calleeName(call)
+				switch name {
+				case "strconv.ParseInt", "strconv.ParseUint":
+					n++
+					k++
+					base, isK := constInt(call.Call.Args[1])
+					c.Check(isK && base == 10, rule, shortName(f), fmt.Sprintf("%s #%d reads decimal", name, k), p.ipos(call), "base 10", fmt.Sprintf("%s is called with base %v: a cell with a leading zero is read as octal (or rejected), 0x.. as hexadecimal", name, descr(call.Call.Args[1])))
+				case "strconv.ParseFloat":
+					n++
+					k++
+					bits, isK := constInt(call.Call.Args[1])
+					c.Check(isK && bits == 64, rule, shortName(f), fmt.Sprintf("%s #%d keeps float64 precision", name, k), p.ipos(call), "bit size 64", "coordinates and distances are parsed with less than float64 precision")
+				}
+			}
+		}
+	}
+	c.Stats[rule+" numeric parse calls"] = n
 }
